@@ -351,6 +351,13 @@ func checkC20(cx *Ctx, r *Report) {
 				other = "dynamic call"
 			}
 		}
+		if len(addCalls) == 0 {
+			// a step kind expressed through another one: `return c.WithConditionalLogicStep(always, logic, errorFunc)`
+			if d, why := c20Delegation(fx, m, methods); d != nil {
+				r.Check(why == "", "R-CHK-CONS", key, w.FnPos(m), "registers exactly one step through "+d.Name()+", whose condition is constantly true; the documented failing conditions agree", why)
+				continue
+			}
+		}
 		if other != "" {
 			r.Fail("R-CHK-CONS", key, w.FnPos(m), "constructor does more than registering one step: calls "+other)
 			continue
@@ -771,4 +778,125 @@ func hasCondParam(cons *ssa.Function) bool {
 		}
 	}
 	return false
+}
+
+// c20Delegation: the constructor m registers its step by calling exactly one other step constructor d on the same
+// receiver, on every path, handing over its own parameters in the same roles and a constantly true function as d's
+// condition. Returns d (nil if m is not of this shape) and, if the documented failing condition of m is not the one
+// of d with the condition fixed to true, why.
+func c20Delegation(fx *Facts, m *ssa.Function, methods []*ssa.Function) (*ssa.Function, string) {
+	isCons := map[*ssa.Function]bool{}
+	for _, x := range methods {
+		if strings.HasPrefix(x.Name(), "With") {
+			isCons[x] = true
+		}
+	}
+	var dc *ssa.Call
+	for _, c := range callsIn(m) {
+		cal := calleeOf(c)
+		if cal == nil {
+			if _, isB := c.Common().Value.(*ssa.Builtin); isB {
+				continue
+			}
+			return nil, ""
+		}
+		if cal.Pkg != m.Pkg {
+			continue // logging
+		}
+		cc, isCall := c.(*ssa.Call)
+		if !isCall || !isCons[cal] || cal == m || dc != nil {
+			return nil, ""
+		}
+		dc = cc
+	}
+	if dc == nil || len(m.Params) == 0 || len(dc.Call.Args) == 0 || dc.Call.Args[0] != ssa.Value(m.Params[0]) {
+		return nil, ""
+	}
+	d := calleeOf(dc)
+	for _, ret := range returnsOf(m) {
+		if !(dc.Block() == ret.Block() || dc.Block().Dominates(ret.Block())) {
+			return nil, ""
+		}
+		if len(ret.Results) != 1 || (ret.Results[0] != ssa.Value(dc) && ret.Results[0] != ssa.Value(m.Params[0])) {
+			return nil, ""
+		}
+	}
+	if fx.info(m).reachable(dc.Block(), dc.Block()) {
+		return nil, ""
+	}
+	rm, rd := c20roles[m.Name()], c20roles[d.Name()]
+	em, okm := c20table[m.Name()]
+	ed, okd := c20table[d.Name()]
+	if !okm || !okd || len(rd) != len(dc.Call.Args) {
+		return d, "step kind without a documented failing condition in the checker's table"
+	}
+	fixed := map[string]bool{}
+	for i := 1; i < len(dc.Call.Args); i++ {
+		a := dc.Call.Args[i]
+		if ct, isCT := a.(*ssa.ChangeType); isCT {
+			a = ct.X
+		}
+		if p, isP := a.(*ssa.Parameter); isP {
+			role := ""
+			for j, q := range m.Params {
+				if q == p && j < len(rm) {
+					role = rm[j]
+				}
+			}
+			if role != rd[i] {
+				return d, fmt.Sprintf("%s hands its %s to %s as %s", m.Name(), role, d.Name(), rd[i])
+			}
+			continue
+		}
+		if rd[i] == "cond" && isConstTrueFunc(a) {
+			fixed["C:cond()"] = true
+			continue
+		}
+		return d, fmt.Sprintf("argument %d of the call to %s is neither a parameter of %s nor a constantly true condition", i, d.Name(), m.Name())
+	}
+	inM := map[string]bool{}
+	for _, a := range em.atoms {
+		inM[a] = true
+	}
+	for _, a := range ed.atoms {
+		if _, isFixed := fixed[a]; !inM[a] && !isFixed {
+			return d, fmt.Sprintf("%s depends on %s, which %s does not determine", d.Name(), a, m.Name())
+		}
+	}
+	for _, v := range valuations(em.atoms) {
+		vd := map[string]bool{}
+		for k, b := range v {
+			vd[k] = b
+		}
+		for k, b := range fixed {
+			vd[k] = b
+		}
+		if em.fail(v) != ed.fail(vd) {
+			return d, fmt.Sprintf("for %v %s %s but the documented condition of %s (%s) says it %s", fmtVal(v), d.Name(), failWord(ed.fail(vd)), m.Name(), em.doc, failWord(em.fail(v)))
+		}
+	}
+	return d, ""
+}
+
+// isConstTrueFunc: a func() bool without captured state whose every return is the constant true and which calls nothing.
+func isConstTrueFunc(v ssa.Value) bool {
+	var fn *ssa.Function
+	switch x := v.(type) {
+	case *ssa.Function:
+		fn = x
+	case *ssa.MakeClosure:
+		if len(x.Bindings) == 0 {
+			fn, _ = x.Fn.(*ssa.Function)
+		}
+	}
+	if fn == nil || fn.Blocks == nil || len(fn.Params) != 0 || len(callsIn(fn)) != 0 {
+		return false
+	}
+	rets := returnsOf(fn)
+	for _, ret := range rets {
+		if val, ok := retConstBool(ret); !ok || !val {
+			return false
+		}
+	}
+	return len(rets) > 0
 }
